@@ -57,7 +57,9 @@ func (s *Syncer) getClusterHostsState(
 		isCompletelyConverged := !isSlaveLost && *nodeState.SlaveState.ReplicationLag < lowReplMark
 
 		switch {
-		case isMaster || isSlaveLost:
+		case isMaster || isSlaveLost || nodeState.ReplicationSettings == nil:
+			// a health record without replication settings (e.g. written by an older version) tells nothing
+			// about what the host runs with: restore the defaults and deregister it
 			hostsState.MalfunctioningHosts = append(hostsState.MalfunctioningHosts, hostname)
 
 		case isNearConverged && !isEnabled ||
